@@ -146,6 +146,14 @@ impl SmtpConnection {
             #[cfg(any(feature = "native-tls", feature = "rustls", feature = "boring-tls"))]
             {
                 try_smtp!(self.command(Starttls), self);
+                if !self.stream.buffer().is_empty() {
+                    // anything received in clear after the STARTTLS reply must not be
+                    // interpreted as coming from the encrypted session
+                    self.abort();
+                    return Err(error::response(
+                        "unexpected data received in clear after the STARTTLS reply",
+                    ));
+                }
                 self.stream.get_mut().upgrade_tls(tls_parameters)?;
                 #[cfg(feature = "tracing")]
                 tracing::debug!("connection encrypted");
